@@ -221,7 +221,12 @@ def _same(a, b):
         if type(a) is not type(b):
             return False
         if isinstance(a, datetime):
-            return a == b and a.tzinfo == b.tzinfo
+            # tzinfo objects need not define equality (a deep copy of one is a different object)
+            if (a.tzinfo is None) != (b.tzinfo is None):
+                return False
+            if a.tzinfo is None:
+                return a == b
+            return a == b and a.utcoffset() == b.utcoffset() and a.tzname() == b.tzname()
         return a == b
     except Exception:
         return False
